@@ -114,6 +114,32 @@ pub fn run(s: &mut Session, ctx: &Ctx) {
         }
     });
     let maxima = par::merge(s, accs);
+    // the corners and faces of the cube at full resolution in every tier (the lattice above skips odd
+    // levels): every colour with at least two channels within 3 of 0 or 255, each step of the free
+    // channel and of the pinned ones
+    {
+        let edge: [u8; 8] = [0, 1, 2, 3, 252, 253, 254, 255];
+        let lum_of = |r: u8, g: u8, b: u8| Color::from_rgb(r, g, b).luminance();
+        for &e1 in &edge {
+            for &e2 in &edge {
+                for v in 0..=255u8 {
+                    for (r, g, b) in [(v, e1, e2), (e1, v, e2), (e1, e2, v)] {
+                        let lum = lum_of(r, g, b);
+                        s.count_case("", true);
+                        if r < 255 {
+                            s.check(lum_of(r + 1, g, b) > lum, "luminance-strictly-increasing", "Color::luminance", || format!("rgb({},{},{})", r, g, b), || format!("r+1: {:?} vs {:?}", lum_of(r + 1, g, b), lum));
+                        }
+                        if g < 255 {
+                            s.check(lum_of(r, g + 1, b) > lum, "luminance-strictly-increasing", "Color::luminance", || format!("rgb({},{},{})", r, g, b), || format!("g+1: {:?} vs {:?}", lum_of(r, g + 1, b), lum));
+                        }
+                        if b < 255 {
+                            s.check(lum_of(r, g, b + 1) > lum, "luminance-strictly-increasing", "Color::luminance", || format!("rgb({},{},{})", r, g, b), || format!("b+1: {:?} vs {:?}", lum_of(r, g, b + 1), lum));
+                        }
+                    }
+                }
+            }
+        }
+    }
     if step == 1 {
         s.exhaustive.push("all 2^24 8-bit colours: luminance monotone per channel, text colour, to_gray".into());
     } else {
